@@ -83,4 +83,13 @@ def run(pid, P, ov, r, seed):
                 ok = False
                 msgs.append(f"UNDECIDED unstable proof: with z3 seed {sd} these units fail: {bad}")
     cov["stability_runs"] = stab
+    if pid == "C15":
+        import kani_check
+        k = kani_check.run_c15()
+        cov["second_backend"] = k
+        if k.get("status") == "failed":
+            ok = False
+            msgs.append("UNDECIDED Kani cross-check of merge_necessity reports failing checks although Verus verifies: " + str(k.get("tail", ""))[-300:])
+        elif k.get("status") != "successful":
+            msgs.append("note: Kani cross-check did not complete (" + str(k.get("status")) + "); not counted")
     return ok, cov, msgs
